@@ -1420,24 +1420,40 @@ class GroupBy:
 
         # TODO: allow a target vector
         results = parallel_map(func, arg_list)
+        # func is only called for the groups with at least one (selected) row
+        observed = np.array([len(arr) > 0 for arr in array_splits[0]], dtype=bool)
+        observed = observed[: self.ngroups]  # array_split yields one piece even without groups
+        n_observed = int(observed.sum())
         results_per_value = [
-            results[i * self.ngroups : (i + 1) * self.ngroups]
+            results[i * n_observed : (i + 1) * n_observed]
             for i in range(len(value_list))
         ]
         result_col_names = self._col_names_from_value_names(value_names)
 
-        group_index = self._result_index[self._labels_argsort]
-        if mask is not None:
-            group_index = group_index[[len(arr) > 0 for arr in array_splits[0]]]
-        else:
-            group_index = group_index[group_counts > 0]
+        group_index = self._result_index[self._labels_argsort][observed]
 
-        if np.ndim(results_per_value[0][0]) == 0:
+        if n_observed == 0 or np.ndim(results_per_value[0][0]) == 0:
             # safe to assume it's a scalar value function
-            arrays = map(np.array, results_per_value)
+            arrays = list(map(np.array, results_per_value))
             if transform:
                 self._unify_group_key_chunks(keep_chunked=False)
-                arrays = [arr[self.group_ikey] for arr in arrays]
+                # map each group code to the position of its result, which is in sorted label order
+                # and skips unobserved groups; those and the null key (-1) point to a trailing null
+                codes_in_result_order = np.arange(self.ngroups)[self._labels_argsort]
+                result_position = np.full(self.ngroups + 1, -1)
+                result_position[codes_in_result_order[observed]] = np.arange(n_observed)
+                take = result_position[self.group_ikey]
+
+                def broadcast(arr):
+                    if (take < 0).any():
+                        if arr.dtype.kind in "mM":
+                            null = np.array(["NaT"], dtype=arr.dtype)
+                        else:
+                            null = np.array([np.nan])
+                        arr = np.concatenate([arr, null])
+                    return arr[take]
+
+                arrays = [broadcast(arr) for arr in arrays]
                 index = (
                     common_index
                     if common_index is not None
